@@ -488,6 +488,7 @@ class Explorer:
         (shared objects each one may touch); when a run enlarges a footprint the search is
         restarted with the larger footprints, so the final pass used a closed footprint."""
         self.passes = 0
+        self.probe()
         while True:
             self.passes += 1
             self.fp_grew = False
@@ -500,6 +501,15 @@ class Explorer:
             if not self.use_ample and not self.shared_tmp:
                 break
         return self
+
+    def probe(self):
+        """One uncollected run with the default schedule: discovers tmp paths that more than one
+        thread uses (they become scheduling objects) before any state is recorded."""
+        self.execute((), None, collect=False)
+        self.tmp_changed = False
+        self.fp_grew = False
+        self.runs = 0
+        self.steps = 0
 
     def _explore_once(self):
         stack = [()]
@@ -534,6 +544,7 @@ def _par_worker(args):
     sc, base, wid, visited, queue, pending, budget, pbound = args
     ex = Explorer(sc, os.path.join(base, "w%d" % wid), max_runs=10 ** 9, preemption_bound=pbound)
     ex.use_ample = False          # footprints are per process; no reduction in parallel mode
+    ex.probe()
     ex.shared, ex.wid = visited, wid
     idle = 0
     while True:
